@@ -138,7 +138,7 @@ PROPS["C17"]["assumptions"] = ["as C01/C02"]
 
 PROPS["C05"] = {
     "level": "proof",
-    "prop_modules": ["Flounder.Props.C05", "Flounder.Props.SearchRanked", "Flounder.Props.ChessSearch"],
+    "prop_modules": ["Flounder.Props.C05", "Flounder.Props.SearchRanked", "Flounder.Props.ChessSearch", "Flounder.Props.C05Range"],
     "budget": {"quick": [("c05", 60), ("tie", 25)], "thorough": [("c05", 4000), ("tie", 1500)], "search": [("c05", 8000), ("tie", 3000)]},
     "rule": "positions with a measured finite quiescence tree (small-material families + play-outs, accepted only if every successor to the search depth has a quiescence tree under a node cap; reject rate printed): fresh searcher, iterative deepening to depth 1..3, score (won/lost beyond the window) and returned move compared with plain minimax Spec.V computed by the Lean spec; quiescence value vs Spec.Q; plus the strict tie of the search model: full result incl. node counts, poll counts, reuse counters and a digest of the whole transposition table after every (possibly interrupted) search, and order_moves/order_captures outputs",
     "trusted_base": SEARCH_TB + [HASHINJ],
@@ -148,6 +148,7 @@ PROPS["C05"] = {
 }
 PROPS["C06"] = {
     "level": "proof",
+    "prop_modules": ["Flounder.Props.C06", "Flounder.Props.C06Full", "Flounder.Props.C06Guard"],
     "budget": {"quick": [("c06", 12)], "thorough": [("c06", 800)], "search": [("c06", 1600)]},
     "rule": "for small-tree positions: a deadline at EVERY node count 1..total (exhaustive when the completed search has <= 120 nodes, sampled otherwise), expressed both as node budget and as poll index; 1-3 interrupted searches, then every record left in the table for the root and its successors audited against minimax (s.ttclaim), a later completed search judged against minimax (only when no deeper record was reused), and the repetition stack length compared (rep=)",
     "trusted_base": SEARCH_TB + [HASHINJ],
@@ -157,6 +158,7 @@ PROPS["C06"] = {
 }
 PROPS["C07"] = {
     "level": "proof",
+    "prop_modules": ["Flounder.Props.C07", "Flounder.Props.C07Dense"],
     "budget": {"quick": [("c07", 12)], "thorough": [("c07", 800)], "search": [("c07", 1600)]},
     "custom": [blackbox.step_latency],
     "rule": "as C06 (deadline at every node count / poll index): the hook counter 'nodes entered after should_stop() first returned true' must be 0 (theorem no_new_work_after_stop) and poll counts must match the model; black-box: go movetime T on 5 positions incl. quiescence-explosive ones (16 pawns on the 7th ranks, 8 queens) must answer within T + 400 ms (observed, not proved)",
@@ -177,7 +179,7 @@ PROPS["C08"] = {
 }
 PROPS["C03"] = {
     "level": "proof",
-    "prop_modules": ["Flounder.Props.C03", "Flounder.Props.SearchRanked", "Flounder.Props.ChessSearch", "Flounder.Props.ChessSearchExample"],
+    "prop_modules": ["Flounder.Props.C03", "Flounder.Props.SearchRanked", "Flounder.Props.ChessSearch", "Flounder.Props.ChessSearchExample", "Flounder.Props.C03Engine", "Flounder.Props.C03EngineExample"],
     "budget": {"quick": [("c03", 15)], "thorough": [("c03", 1500)], "search": [("c03", 3000)]},
     "custom": [blackbox.step_transcripts, blackbox.step_timed],
     "rule": "in-process: after 0-3 earlier (possibly interrupted) searches on other positions, the position is searched with a deadline at every early poll (0 = zero budget), sampled later polls/node counts and no deadline; every answer judged by the Lean rules spec (legal; 'no move' only without legal moves); mate/stalemate positions. black-box: generated UCI scripts on the real binary, one bestmove per go, legal by the spec; real clocks (movetime 0/1/5/30, clocks around the 5 s reserve)",
